@@ -22,6 +22,8 @@ theorem wakeThread_held (st : QState) : st.held = true → (wakeThread st).held 
   cases st <;> simp [wakeThread, QState.held]
 theorem desyncPush_held (st : QState) : st.held = true → (desyncPush st).1.held = true := by
   cases st <;> simp [desyncPush, QState.held]
+theorem futureDrop_held (self : Nat) (st : QState) : st.held = true → (futureDropDecide self st).1.held = true := by
+  cases st <;> simp [futureDropDecide, QState.held]
 theorem reschedule_held (st : QState) (e : Bool) : st.held = true → (reschedule st e).1.held = true := by
   cases st <;> cases e <;> simp [reschedule, QState.held]
 
